@@ -17,7 +17,8 @@ import (
 )
 
 type Op struct {
-	Op    string `json:"op"` // login | affirm | tgs | cached | sleep | sleep_to | destroy
+	Op    string `json:"op"` // login | affirm | tgs | cached | sleep | sleep_to | destroy | net_down | net_up
+	Fault string `json:"fault,omitempty"` // net_down: refuse | silent | close (request processed, reply lost) | close-mid (reply cut inside its first bytes)
 	SPN   string `json:"spn,omitempty"`
 	Ns    int64  `json:"ns,omitempty"`    // sleep: duration
 	Ref   string `json:"ref,omitempty"`   // sleep_to: tgt_end | tgt_renew_point | tgt_renew_till | tkt_end (of SPN)
@@ -50,7 +51,7 @@ func Meta() core.Meta {
 		Engine: "c10", Property: "C10", Level: "exploration",
 		Rule:        "case = one run: a real client configured from a generated krb5.conf (etype lists, forwardable/proxiable/canonicalize, renew_lifetime, ticket_lifetime, noaddresses, transport) with a keytab or password credential or a credential cache written by the reference implementation performs 3-30 operations (login, service-ticket requests for repeated and new SPNs in its own and in foreign realms, waits that land before/at/after ticket and TGT end times, renewal points and renew-till, destroy) against reference KDCs with a drawn policy (pre-authentication and hint layout, salts and iteration counts, maximum lives, optional starttime, address copying) and referral chains of length 0-8 or a cycle; distinct = distinct (configuration class, policy class, operation/outcome sequence); non-trivial = at least one ticket request after a wait, a renewal, a referral or a pre-authentication round trip",
 		SeededQuick: 2500, SeededThorough: 150000,
-		WorkloadProbes: []string{"served-from-cache", "requested-afresh-after-expiry", "tgt-renewed-by-library", "relogin-after-tgt-expiry", "referral-chain-3plus", "referral-cycle", "preauth-with-nondefault-salt", "renewable-requested", "wait-lands-within-1s-of-end", "destroy-then-use", "credential-cache-client", "password-outside-ascii", "etype-lists-separated-by-commas-or-tabs"},
+		WorkloadProbes: []string{"served-from-cache", "requested-afresh-after-expiry", "tgt-renewed-by-library", "relogin-after-tgt-expiry", "referral-chain-3plus", "referral-cycle", "preauth-with-nondefault-salt", "renewable-requested", "wait-lands-within-1s-of-end", "destroy-then-use", "credential-cache-client", "password-outside-ascii", "etype-lists-separated-by-commas-or-tabs", "operation-during-outage", "operation-after-outage", "tgt-ended-during-outage", "renewal-point-passed-during-outage"},
 		Components: map[string]string{
 			"client.Login/AffirmLogin/GetServiceTicket/GetCachedTicket/Destroy, session auto-renewal goroutines, ticket cache, NewASReq/NewTGSReq/setPAData, network code, krb5.conf parser, keytab parser": "real",
 			"sync in client/session.go, client/cache.go": "shim (seeded yields at every lock boundary)",
@@ -250,6 +251,34 @@ func Gen(caseID, tier string) (json.RawMessage, error) {
 		default:
 			tp.Ops = append(tp.Ops, Op{Op: "tgs", SPN: spns[r.Intn(len(spns))]})
 		}
+	}
+	// network outage: for a stretch of the history no server can be reached (refused, silent, or
+	// the request is processed and the reply lost); the stretch tends to contain the TGT's renewal
+	// point or end, so that the library's own renewal runs into it; afterwards the network is
+	// healthy again and everything the statement promises is due again
+	if r.Chance(1, 4) && len(tp.Ops) >= 2 {
+		i := r.Range(1, len(tp.Ops))
+		down := []Op{{Op: "net_down", Fault: r.Pick("refuse", "refuse", "silent", "close", "close-mid")}}
+		if r.Chance(2, 3) {
+			ref := r.Pick("tgt_end", "tgt_end", "tgt_renew_point", "tgt_renew_till", "tkt_end")
+			down = append(down, Op{Op: "sleep_to", Ref: ref, SPN: spns[r.Intn(len(spns))], Delta: []int64{1, 1_000_000_000, 60_000_000_000, 600_000_000_000, -1_000_000_000}[r.Intn(5)]})
+		}
+		if r.Chance(1, 2) {
+			down = append(down, Op{Op: r.Pick("tgs", "tgs", "login", "affirm"), SPN: spns[r.Intn(len(spns))]})
+		}
+		k := i + r.Intn(4)
+		if k > len(tp.Ops) {
+			k = len(tp.Ops)
+		}
+		var ops []Op
+		ops = append(ops, tp.Ops[:i]...)
+		ops = append(ops, down...)
+		ops = append(ops, tp.Ops[i:k]...)
+		ops = append(ops, Op{Op: "net_up"})
+		// what was promised before the outage is due again after it
+		ops = append(ops, Op{Op: "tgs", SPN: spns[r.Intn(len(spns))]})
+		ops = append(ops, tp.Ops[k:]...)
+		tp.Ops = ops
 	}
 	// bound the simulated horizon: every re-login starts a new library goroutine, and the task table
 	// is finite (about 150 ticket lifetimes fit comfortably)
